@@ -576,11 +576,14 @@ def _r2(chk, model: Model, views: dict[str, MethodView], store: str) -> set[str]
                 if lock is not None:
                     verdict = True
                     break
-                med = _inflight(model, v, t, lab, mid, store)
+                med, late = _inflight(model, v, t, lab, mid, store)
                 if med is not None:
                     mediators.add(med)
                     verdict = True
                     break
+                if late is not None:
+                    mode = "inflight-registered-late"
+                    mediators.add(late)
                 p = cfg.path(t, mid[0]) + cfg.path(mid[0], w)[1:]
                 path = _desc(v, p)
                 reason = (f"`{' '.join(ast.unparse(t.ast.test).split())[:70]}` (line {t.line}) is decided before the coroutine suspends at line {mid[0].line} and `{store}` is written at line {w.line}: "
@@ -592,17 +595,21 @@ def _r2(chk, model: Model, views: dict[str, MethodView], store: str) -> set[str]
     return mediators
 
 
-def _inflight(model: Model, v: MethodView, t: Node, lab: str, mid: list[Node], store: str) -> str | None:
+def _inflight(model: Model, v: MethodView, t: Node, lab: str, mid: list[Node], store: str) -> tuple[str | None, str | None]:
     """In-flight idiom: between the store test and the first suspension a shared table F is written, and a test on F that
     dominates that write awaits the pending entry on its hit branch (and does not raise there)."""
     cfg = v.cfg
+    late = None
     starts = [x for l2, x in cfg.succ[t] if l2 == lab]
     for loc in model.locs:
         if loc.kind not in ("attr", "classattr") or loc.name == store or loc.nature != "plain":
             continue
         fw = [n for n in cfg.nodes if n.ast is not None and any("W" in k for _x, k in _occurrences(n, v.sn, loc, set()))
               and any(n is x or n in v.after(x) for x in starts)]
-        fw = [n for n in fw if not any(s is not n and n in v.after(s) and any(s is x or s in v.after(x) for x in starts) for s in v.susp)]
+        early = [n for n in fw if not any(s is not n and n in v.after(s) and any(s is x or s in v.after(x) for x in starts) for s in v.susp)]
+        if fw and (not early or cfg.must_pass(starts, mid, early)) and _awaited_somewhere(v, loc.name):
+            late = late or loc.name  # a pending-entry table exists, but a suspension is reachable before the entry is registered
+        fw = early
         if not fw:
             continue
         if cfg.must_pass(starts, mid, fw):
@@ -618,8 +625,12 @@ def _inflight(model: Model, v: MethodView, t: Node, lab: str, mid: list[Node], s
                 raises_first = any(h.kind == "stmt" and isinstance(h.ast, ast.Raise) for l2, h in [(None, o) for o in other]) or \
                     any(isinstance(h.ast, ast.Raise) and not awaits for h in hit if h.ast is not None)
                 if awaits and not raises_first:
-                    return loc.name
-    return None
+                    return loc.name, None
+    return None, late
+
+
+def _awaited_somewhere(v: MethodView, name: str) -> bool:
+    return any(isinstance(x, ast.Await) and (_reads_loc(x, v.sn, name) or _awaits_alias_of(v.fn, x, v.sn, name)) for x in walk_shallow(v.fn))
 
 
 def _awaits_alias_of(fn: ast.AST, aw: ast.Await, sn: str | None, name: str) -> bool:
@@ -755,8 +766,17 @@ def _r5(chk, model: Model, views: dict[str, MethodView], store: str) -> None:
         for loc in model.locs:
             if loc.kind not in ("attr", "classattr") or loc.name == store or loc.nature != "plain" or not isinstance(loc.init, (ast.Dict, ast.Call)):
                 continue
-            getter_writes = any("W" in k for vv in views.values() if isinstance(vv.fn, ast.AsyncFunctionDef) for n in vv.cfg.nodes if n.ast is not None
-                                for x, k in _occurrences(n, vv.sn, loc, set()) if isinstance(parent(x), ast.Subscript))
+            # the per-resolution cache: a table in which a coroutine stores a value it obtained from an await (the resolved resource)
+            getter_writes = False
+            for vv in views.values():
+                if not isinstance(vv.fn, ast.AsyncFunctionDef):
+                    continue
+                awaited = {tg.id for s_ in walk_shallow(vv.fn) if isinstance(s_, ast.Assign) and isinstance(s_.value, ast.Await) for tg in s_.targets if isinstance(tg, ast.Name)}
+                for s_ in walk_shallow(vv.fn):
+                    if isinstance(s_, ast.Assign) and isinstance(s_.value, ast.Name) and s_.value.id in awaited:
+                        for tg in s_.targets:
+                            if isinstance(tg, ast.Subscript) and _reads_loc(tg.value, vv.sn, loc.name):
+                                getter_writes = True
             if not getter_writes:
                 continue
             clears = [u for u in cfg.nodes if u.ast is not None and any(
@@ -970,26 +990,26 @@ TWINS = [
             return val
         finally:
             resolving.remove(resource.name)
-''', '''        fut: asyncio.Future[Any] | None = None
-        if resource.cache:
-            fut = asyncio.get_running_loop().create_future()
-            self._pending[resource.name] = fut
-        resolving.append(resource.name)
+''', '''        resolving.append(resource.name)
         try:
-            val = await resource.resolve(self)
-            if fut is not None:
-                await self.set(resource.name, val)
-                fut.set_result(val)
+            if not resource.cache:
+                val = await resource.resolve(self)
+            else:
+                fut = asyncio.get_running_loop().create_future()
+                self._pending[resource.name] = fut
+                try:
+                    val = await resource.resolve(self)
+                    await self.set(resource.name, val)
+                    fut.set_result(val)
+                except BaseException as exc:
+                    fut.set_exception(exc)
+                    raise
+                finally:
+                    self._pending.pop(resource.name, None)
             state.cache[resource.name] = val
             return val
-        except BaseException as exc:
-            if fut is not None and not fut.done():
-                fut.set_exception(exc)
-            raise
         finally:
             resolving.remove(resource.name)
-            if fut is not None:
-                self._pending.pop(resource.name, None)
 '''),
     ), None),
     Twin("in-flight future registered only after the factory started", _P, _OLD, _variant(
@@ -1011,23 +1031,27 @@ TWINS = [
             return val
         finally:
             resolving.remove(resource.name)
-''', '''        fut: asyncio.Future[Any] | None = None
-        resolving.append(resource.name)
+''', '''        resolving.append(resource.name)
         try:
-            args = await resource._resolve_dependencies(self)
-            if resource.cache:
+            if not resource.cache:
+                val = await resource.resolve(self)
+            else:
+                await asyncio.sleep(0)  # let other steps start first
                 fut = asyncio.get_running_loop().create_future()
                 self._pending[resource.name] = fut
-            val = await resource.resolve(self)
-            if fut is not None:
-                await self.set(resource.name, val)
-                fut.set_result(val)
+                try:
+                    val = await resource.resolve(self)
+                    await self.set(resource.name, val)
+                    fut.set_result(val)
+                except BaseException as exc:
+                    fut.set_exception(exc)
+                    raise
+                finally:
+                    self._pending.pop(resource.name, None)
             state.cache[resource.name] = val
             return val
         finally:
             resolving.remove(resource.name)
-            if fut is not None:
-                self._pending.pop(resource.name, None)
 '''),
     ), "C22.R2"),
     Twin("ContextVar with a shared mutable default", _P, _OLD, _variant(
